@@ -179,3 +179,13 @@ func init() {
 		LevelText:   "fault enumeration over fault kind, position and shutdown speed; crash freedom is observed per worker process",
 		LevelNote:   "trusted base: SimBus closed-handler and Close-gate emulation, wall-clock watchdogs only ever yield 'inconclusive'"})
 }
+
+func init() {
+	add(&Prop{ID: "C18", Level: "exploration", Shards: 16, RaceShards: 8, RaceQuick: false,
+		Technique:   "runtime monitoring: the real NATS adapter over loopback TCP against a scripted fake NATS server; completion counter per request decided at the logical point 'nothing pending in the adapter' (hook), error class and timeout lower bounds on the monotonic clock, event order checker, closed-handler observation; race detector attributed to nats.(*Client)",
+		Rule:        "rounds of 1-64 concurrent requests with a seeded behaviour each {one reply, two replies, none, timeout pre-response then reply / silence / second pre-response, empty 503, reply racing the timeout at +-1 ms, late reply, subject around the control-line limit} interleaved with 150 ordered events on a subscription, 20% of the rounds with the server dropping the TCP connection at a random moment; distinct = round seed, every round non-trivial",
+		Assumptions: []string{"the fake server implements the part of the NATS protocol nats.go v1.13.1 uses here (INFO with headers, CONNECT/PING/PONG, SUB/UNSUB with max, PUB/HPUB, MSG/HMSG)", "timeouts are judged by lower bounds only; upper bounds are watchdogs", "after the server dropped the connection only 'at most one completion' and the closed handler are judged"},
+		DesignRef:   "DESIGN.md §4 C18",
+		LevelText:   "exploration of reply behaviours, concurrency and disconnect moments against the real adapter code",
+		LevelNote:   "trusted base: natsfake, VerifPending hook, monotonic clock for lower bounds"})
+}
